@@ -391,7 +391,7 @@ package core
 //@     && d.BodyCoords.end + 1 <= len(d.BodyCoords.file.content.data))
 //@ func (*JApiCore).addRequest(core, d)
 //@   property C03
-//@   requires core != nil && core.catalog != nil && directive.dirOK(d) && bodyOK(d)
+//@   requires handlerPre(core, d)
 //@   modifies anything
 //@   keeps directive.Directive, fs.File
 //@   ensures[C03,C07,@error-in-directive-file] imp(result != nil, errIn(result, d))
@@ -406,7 +406,7 @@ package core
 //@ pred errAt(e *jerr.JApiError, d *directive.Directive) := e != nil && ((e.File == d.keywordCoords.file && e.Index == d.keywordCoords.begin)
 //@     || (d.BodyCoords.file != nil && e.File == d.BodyCoords.file))
 //@ pred errIn(e *jerr.JApiError, d *directive.Directive) := e != nil && (e.File == d.keywordCoords.file || (d.BodyCoords.file != nil && e.File == d.BodyCoords.file))
-//@ pred handlerPre(core *JApiCore, d *directive.Directive) := core != nil && core.catalog != nil && directive.dirOK(d) && bodyOK(d)
+//@ pred handlerPre(core *JApiCore, d *directive.Directive) := core != nil && catalog.catShape(core.catalog) && directive.dirOK(d) && bodyOK(d)
 //@ pred setterFailed(core *JApiCore, c0 *catalog.Catalog, n0 int) := core.catalog == c0 && c0.gFailed > n0
 
 //@ func description(b)
@@ -461,7 +461,7 @@ package core
 //@ func (*JApiCore).addType(core, d)
 //@   property C03
 //@   attr assumesafe
-//@   requires handlerPre(core, d)
+//@   requires handlerPre(core, d) && catalog.omUserTypesInv(core.catalog.UserTypes)
 //@   modifies anything
 //@   keeps directive.Directive, fs.File
 //@   ensures[C03,@setter-error-reported] imp(setterFailed(core, old(core.catalog), old(core.catalog.gFailed)), result != nil)
